@@ -264,6 +264,8 @@ class ExecutionState:
         self._replay_status: ReplayStatus = replay_status
         self._replay_status_lock: Lock = Lock()
         self._visited_operations: set[str] = set()
+        # Operations the loaded history held as completed (None until the history has been loaded)
+        self._history_completed_ids: frozenset[str] | None = None
 
     def fetch_paginated_operations(
         self,
@@ -349,11 +351,16 @@ class ExecutionState:
         # iterate over a snapshot taken under the lock, never over the live dict.
         with self._operations_lock:
             operations = dict(self.operations)
+        # Only what had completed before this invocation began is code an earlier invocation ran:
+        # an operation another thread completes during this invocation must not hold up the
+        # transition to NEW until that thread has come round to tracking it.
+        history = self._history_completed_ids
         return {
             op_id
             for op_id, op in operations.items()
             if op.operation_type != OperationType.EXECUTION
             and op.status in self._TERMINAL_STATUSES
+            and (history is None or op_id in history)
             and not self._is_inside_completed_context(op, operations)
         }
 
@@ -364,6 +371,12 @@ class ExecutionState:
         operation there is no code whose log output must be suppressed.
         """
         with self._replay_status_lock:
+            with self._operations_lock:
+                self._history_completed_ids = frozenset(
+                    op_id
+                    for op_id, op in self.operations.items()
+                    if op.status in self._TERMINAL_STATUSES
+                )
             if self._completed_operation_ids():
                 self._replay_status = ReplayStatus.REPLAY
 
